@@ -148,6 +148,7 @@ IdClass(i, n, x) == IF i \notin DOMAIN VR.claims THEN "none"
                     ELSE IF i \in G.dropped THEN (IF TermEnd(VR, i) < x THEN "dropped-short" ELSE "dropped")
                     ELSE IF TermEnd(VR, i) < x THEN "short" ELSE "ok"
 DeclClass(dc) == <<dc.exp - SM.sec[dc.n].exp, Len(dc.maintain), Len(dc.drop), NoDup(dc.maintain \o dc.drop),
+                   Active(SM, dc.n, epoch), Cmp(SM.sec[dc.n].exp - epoch, DropPeriod), SM.sec[dc.n].vs > 0,
                    {IdClass(dc.maintain[k], dc.n, dc.exp) : k \in 1..Len(dc.maintain)},
                    {IdClass(dc.drop[k], dc.n, dc.exp) : k \in 1..Len(dc.drop)}>>
 ArgClass(l) ==
@@ -164,7 +165,8 @@ ArgClass(l) ==
     [] OTHER -> "-"
 Tour ==
   IF last'.a \in {"Init", "Tick"} THEN TRUE
-  ELSE LET sig == IF VR' = VR /\ SM' = SM     \* rejected or without effect: the pre-state does not refine the signature
+  ELSE LET sig == IF (VR' = VR /\ SM' = SM)    \* rejected or without effect, or a registry-only call:
+                     \/ last'.a \in {"Transfer", "ExtendClaimTerms", "RemoveExpiredClaims", "RemoveExpiredAllocs"}   \* the pre-state does not refine the signature
                   THEN ToString(<<"-", last'.a, ArgClass(last'), last'.ok>>)
                   ELSE ToString(<<Alpha(VR, SM, G, epoch), last'.a, ArgClass(last'), last'.ok>>)
        IN  IF sig \in TLCGet(42) THEN TRUE
